@@ -209,6 +209,10 @@ impl McNode {
         self.is_crashed = true;
     }
 
+    pub(crate) fn is_crashed(&self) -> bool {
+        self.is_crashed
+    }
+
     fn handle_process_actions(&mut self, proc: String, time: f64, actions: Vec<ProcessEvent>) -> Vec<McEvent> {
         let mut new_events = Vec::new();
         for action in actions {
